@@ -559,6 +559,15 @@ func structGetter(in any) (func(string) any, bool) {
 	case time.Time:
 		return nil, false
 	}
+	// any other map with string keys (user-defined map types, other element types): the entry, absent when missing
+	if rv := reflect.ValueOf(in); rv.Kind() == reflect.Map && rv.Type().Key() == reflect.TypeOf("") {
+		return func(k string) any {
+			if e := rv.MapIndex(reflect.ValueOf(k)); e.IsValid() {
+				return e.Interface()
+			}
+			return nil
+		}, true
+	}
 	// a Go struct as data: the value of the exported field named like the key; anything else is absent
 	if rv := reflect.ValueOf(in); rv.Kind() == reflect.Struct {
 		return func(k string) any {
